@@ -419,12 +419,15 @@ class Result:
                               'signature': signature or {}, 'impl': impl})
 
 
+OUT = Path(os.environ.get('VERIF_OUT', str(VERIF))).resolve()   # where evidence/ and replays/ go
+
+
 def write_replay(pid, seed, tag, payload):
-    d = VERIF / 'replays'
+    d = OUT / 'replays'
     d.mkdir(exist_ok=True)
     f = d / f'{pid}-{seed}-{tag}.json'
     f.write_text(json.dumps(payload, indent=1, ensure_ascii=True, default=str))
-    return f.relative_to(VERIF)
+    return f.relative_to(OUT) if OUT == VERIF else f
 
 
 def run_check(pid, module, tier, seed, replay=None):
@@ -544,8 +547,8 @@ def run_check(pid, module, tier, seed, replay=None):
         'wall_s': round(time.time() - t0, 2),
         'violations': violations,
     }
-    (VERIF / 'evidence').mkdir(exist_ok=True)
-    (VERIF / 'evidence' / f'{pid}.json').write_text(json.dumps(ev, indent=1, ensure_ascii=True, default=str))
+    (OUT / 'evidence').mkdir(parents=True, exist_ok=True)
+    (OUT / 'evidence' / f'{pid}.json').write_text(json.dumps(ev, indent=1, ensure_ascii=True, default=str))
     print(f'{pid} {tier} seed={seed}: theorems={n_thm} discharged={ev["coverage"]["discharged"]} '
           f'cases={res.evaluations} nontrivial={len(res.nontrivial)} mismatches={len(corr_findings)} '
           f'violations={violations} wall={ev["wall_s"]}s')
